@@ -145,3 +145,57 @@ func (a SState) NoDerivatives() bool {
 
 // IsZeroState: value zero and all derivative slots zero.
 func (a SState) IsZeroState() bool { return a.Val == 0 && a.NoDerivatives() }
+
+func canonF(v float64) string {
+	if v == 0 {
+		return "0"
+	}
+	return fmt.Sprintf("%x", v)
+}
+
+// Canon is a canonical string of the observable *content* of a scalar state: value, the gradient
+// if any entry is non-zero, the Hessian if any entry is non-zero.  Two scalars with equal Canon are
+// indistinguishable through GetFloat64/GetDerivative/GetHessian (allocation order/N with all-zero
+// derivatives is not content; -0 and +0 are identified).
+func (a SState) Canon() string {
+	s := canonF(a.Val)
+	if !a.NoDerivatives() {
+		s += "'"
+		for _, g := range a.Grad {
+			s += canonF(g) + ","
+		}
+		for _, r := range a.Hess {
+			for _, h := range r {
+				if h != 0 {
+					s += "''"
+					for _, r2 := range a.Hess {
+						for _, h2 := range r2 {
+							s += canonF(h2) + ","
+						}
+					}
+					return s
+				}
+			}
+		}
+	}
+	return s
+}
+
+func (a VState) Canon() string {
+	s := fmt.Sprintf("%d[", a.N)
+	for _, e := range a.E {
+		s += e.Canon() + " "
+	}
+	return s + "]"
+}
+
+func (a MState) Canon() string {
+	s := fmt.Sprintf("%dx%d[", a.Rows, a.Cols)
+	for _, r := range a.E {
+		for _, e := range r {
+			s += e.Canon() + " "
+		}
+		s += ";"
+	}
+	return s + "]"
+}
